@@ -12,7 +12,67 @@ PL = 'prince_ling.py::main'
 PM = 'lib_trainer/prince_metrics.py::prince_evaluation'
 
 
+class _Unk(Exception):
+    pass
+
+
+def _val(node, env):
+    """Value of an expression over representative integers / None; raises _Unk when it is not understood."""
+    if isinstance(node, ast.Constant):
+        return node.value
+    t = U(node)
+    if t in env:
+        return env[t]
+    if isinstance(node, ast.IfExp):
+        return _val(node.body if _truth(node.test, env) else node.orelse, env)
+    if isinstance(node, ast.BinOp) and isinstance(node.op, (ast.Add, ast.Sub)):
+        a, b = _val(node.left, env), _val(node.right, env)
+        if a is None or b is None:
+            raise _Unk(t)
+        return a + b if isinstance(node.op, ast.Add) else a - b
+    if isinstance(node, ast.Call) and call_name(node) in ('max', 'min') and not node.keywords:
+        vs = [_val(a, env) for a in node.args]
+        if any(v is None for v in vs):
+            raise _Unk(t)
+        return max(vs) if call_name(node) == 'max' else min(vs)
+    if isinstance(node, (ast.Compare, ast.BoolOp)) or (isinstance(node, ast.UnaryOp) and isinstance(node.op, ast.Not)):
+        return _truth(node, env)
+    raise _Unk(t)
+
+
+def _truth(node, env):
+    if isinstance(node, ast.BoolOp):
+        if isinstance(node.op, ast.And):
+            for v in node.values:
+                if not _truth(v, env):
+                    return False
+            return True
+        for v in node.values:
+            if _truth(v, env):
+                return True
+        return False
+    if isinstance(node, ast.UnaryOp) and isinstance(node.op, ast.Not):
+        return not _truth(node.operand, env)
+    if isinstance(node, ast.Compare) and len(node.ops) == 1:
+        a, b = _val(node.left, env), _val(node.comparators[0], env)
+        op = node.ops[0]
+        if isinstance(op, ast.Is):
+            return a is b
+        if isinstance(op, ast.IsNot):
+            return a is not b
+        if isinstance(op, (ast.Eq, ast.NotEq)):
+            return (a == b) if isinstance(op, ast.Eq) else (a != b)
+        if a is None or b is None:
+            raise _Unk(U(node))
+        return {ast.Lt: a < b, ast.LtE: a <= b, ast.Gt: a > b, ast.GtE: a >= b}[type(op)]
+    v = _val(node, env)
+    return bool(v)
+
+
 def r1_size_bound(ctx, rule):
+    """One iteration of the generation loop, interpreted on representatives of (words written ? --size): the call of
+    create_guesses is reached iff written < size (or there is no size), and it is handed exactly size - written (None
+    without a size).  Accepts any spelling of the loop head (while <cond>, while True + break, budget in a temporary)."""
     fn = ctx.fn(WL)
     ps = params(fn)
     size = ps[1]
@@ -21,62 +81,72 @@ def r1_size_bound(ctx, rule):
         ctx.unk(rule, WL, 'generation loop not found')
         return
     lp = loops[0]
-    # the loop continues only while count < max_size
-    count = None
-    for n in ast.walk(lp.test):
-        if isinstance(n, ast.Compare) and len(n.ops) == 1 and size in (U(n.left), U(n.comparators[0])):
-            other = n.comparators[0] if U(n.left) == size else n.left
-            if U(other) != 'None':
-                count = U(other)
-    facts = {'loop_condition': U(lp.test), 'count': count}
-    if count is None:
-        ctx.bad(rule, WL, 'loop condition ' + U(lp.test), 'generation must continue only while the number of words written is '
-                'below --size', facts, lp)
-        return
-    res = {}
-    for rel, vals in (('LT', (0, 5)), ('EQ', (5, 5)), ('GT', (6, 5))):
-        env = {count: vals[0], size: vals[1]}
-        res[rel] = _eval_bool(lp.test, env)
-    facts['table'] = res
-    if res['LT'] is True and res['EQ'] is False and res['GT'] is False:
-        ctx.ok(rule, WL, 'loop continues iff count < max_size (or no bound)', facts)
-    else:
-        ctx.bad(rule, WL, 'loop continuation table %s' % res, 'with count == max_size the loop must stop (<= writes one more '
-                'pre-terminal)', facts, lp)
-    # the count accumulates what create_guesses returns
-    acc = [s for s in walk_stmts(lp.body) if isinstance(s, ast.AugAssign) and U(s.target) == count and isinstance(s.op, ast.Add)
-           and isinstance(s.value, ast.Call) and call_name(s.value) == 'pcfg.create_guesses']
+    acc = [s_ for s_ in walk_stmts(lp.body) if isinstance(s_, ast.AugAssign) and isinstance(s_.op, ast.Add)
+           and isinstance(s_.value, ast.Call) and call_name(s_.value) == 'pcfg.create_guesses' and isinstance(s_.target, ast.Name)]
     if len(acc) != 1:
         ctx.bad(rule, WL, 'count is not advanced by the value create_guesses returns', 'the running count must be the number of '
-                'words actually written', facts, lp)
+                'words actually written', None, lp)
         return
+    count = acc[0].target.id
     call = acc[0].value
     cg = ctx.fn(PG + 'create_guesses')
     a = arg_for(call, cg, 'limit')
-    facts['limit_argument'] = U(a) if a is not None else None
+    facts = {'loop_condition': U(lp.test), 'count': count, 'limit_argument': U(a) if a is not None else None}
     if a is None:
         ctx.bad(rule, WL, 'create_guesses called without limit', 'the size bound is only compared between pre-terminals: when N '
                 'falls inside a group of equally probable words all of them are written', facts, call)
         return
-    # limit == max_size - count whenever max_size is not None
-    stores = stores_in(fn)
-    defs = [(s, v) for s, v in stores.get(U(a), []) if v is not None] if isinstance(a, ast.Name) else [(None, a)]
-    good = False
-    for s, v in defs:
-        if isinstance(v, ast.BinOp) and isinstance(v.op, ast.Sub) and U(v.left) == size and U(v.right) == count:
-            if s is None:
-                good = True
+
+    def run(stmts, env):
+        """-> ('call', limit) | ('stop',) | ('fall',)"""
+        for st in stmts:
+            if any(x is acc[0] for x in ast.walk(st)) and not isinstance(st, (ast.If, ast.Try, ast.With, ast.For, ast.While)):
+                return ('call', _val(a, env))
+            if isinstance(st, ast.Assign) and len(st.targets) == 1 and isinstance(st.targets[0], ast.Name):
+                try:
+                    env[st.targets[0].id] = _val(st.value, env)
+                except _Unk:
+                    env.pop(st.targets[0].id, None)
+            elif isinstance(st, ast.If):
+                try:
+                    c = _truth(st.test, env)
+                except _Unk:
+                    if any(nm in U(st.test) for nm in (count, size)) or any(k in U(st.test) for k in env if k not in (count, size)):
+                        raise
+                    # a test about something else (queue exhausted, ...): both outcomes are possible; follow the one that
+                    # goes on towards the call
+                    c = any(x is acc[0] for x in ast.walk(st))
+                r = run(st.body if c else st.orelse, env)
+                if r[0] != 'fall':
+                    return r
+            elif isinstance(st, ast.Try):
+                r = run(st.body, env)
+                if r[0] != 'fall':
+                    return r
+            elif isinstance(st, (ast.Break, ast.Return)):
+                return ('stop',)
+            elif isinstance(st, ast.Continue):
+                return ('stop',)
+        return ('fall',)
+    table = {}
+    try:
+        for name, (c_, s_) in (('written < size', (2, 5)), ('written == size', (5, 5)), ('written > size', (6, 5)), ('no size', (3, None))):
+            env = {count: c_, size: s_}
+            if not _truth(lp.test, env):
+                table[name] = ('stop',)
             else:
-                mod = ctx.repo.modules[WL.partition('::')[0]]
-                conds = [(U(t), p) for t, p in path_conditions(mod, s, stop=lp) if size in U(t)]
-                if conds in ([('%s is not None' % size, True)], [('%s is None' % size, False)], [(size, True)]):
-                    good = True
-    others = [U(v) for s, v in defs if not (isinstance(v, ast.BinOp))]
-    if good and set(others) <= {'None'}:
-        ctx.ok(rule, WL, 'remaining budget max_size - count is passed to create_guesses', facts)
+                table[name] = run(lp.body, env)
+    except _Unk as u:
+        ctx.unk(rule, WL, 'the head of the generation loop is not understood: %s' % u, facts)
+        return
+    facts['iteration_table'] = {k: list(v) for k, v in table.items()}
+    want = {'written < size': ('call', 3), 'written == size': ('stop',), 'written > size': ('stop',), 'no size': ('call', None)}
+    if table == want:
+        ctx.ok(rule, WL, 'create_guesses is reached iff written < size (or no size) and gets size - written (None without a size)', facts)
     else:
-        ctx.bad(rule, WL, 'budget passed to create_guesses: %s' % [U(v) for s, v in defs],
-                'the remaining budget (max_size - words written so far) must be passed', facts, call)
+        ctx.bad(rule, WL, 'generation loop behaves as %s' % facts['iteration_table'],
+                'generation must continue only while fewer than --size words were written (with written == size it must stop: one '
+                'more pre-terminal would be expanded) and every call must be given the remaining budget size - written', facts, lp)
 
 
 def _eval_bool(node, env):
